@@ -117,6 +117,105 @@ class TypingAlias(PyModel):
         return f'TypingAlias({self.__origin__}, {self.__args__})'
 
 
+class RawFunc:
+    """A package function as written, without its decorators (what a decorator receives as its argument)."""
+
+    def __init__(self, ref, module, fnode):
+        self.ref, self.module, self.fnode = ref, module, fnode
+
+    def __repr__(self):
+        return f'RawFunc({self.ref})'
+
+
+class SigParam(PyModel):
+    VAR_POSITIONAL = 'VAR_POSITIONAL'
+    POSITIONAL_OR_KEYWORD = 'POSITIONAL_OR_KEYWORD'
+    KEYWORD_ONLY = 'KEYWORD_ONLY'
+    VAR_KEYWORD = 'VAR_KEYWORD'
+    POSITIONAL_ONLY = 'POSITIONAL_ONLY'
+    empty = Ref('ext:inspect.Parameter.empty')
+
+    def __init__(self, name, kind, annotation, default):
+        self.name, self.kind, self.annotation, self.default = name, kind, annotation, default
+
+
+class SigBound(PyModel):
+    def __init__(self, sig, arguments):
+        self.signature = sig
+        self.arguments = arguments
+
+    @property
+    def args(self):
+        out = []
+        for p in self.signature.parameters.values():
+            if p.kind == SigParam.VAR_POSITIONAL:
+                out.extend(self.arguments.get(p.name, ()))
+            elif p.kind in (SigParam.POSITIONAL_OR_KEYWORD, SigParam.POSITIONAL_ONLY) and p.name in self.arguments:
+                out.append(self.arguments[p.name])
+        return tuple(out)
+
+    @property
+    def kwargs(self):
+        return {p.name: self.arguments[p.name] for p in self.signature.parameters.values()
+                if p.kind == SigParam.KEYWORD_ONLY and p.name in self.arguments}
+
+
+class Sig(PyModel):
+    """inspect.signature of a function of the package, built from its FunctionDef (introspection of the analysed source)."""
+    empty = Ref('ext:inspect.Signature.empty')
+
+    def __init__(self, analysis, module, fnode, world=None, skip_first=False):
+        self.parameters = {}
+        a = fnode.args
+        pos = list(a.posonlyargs) + list(a.args)
+        defaults = [None] * (len(pos) - len(a.defaults)) + list(a.defaults)
+        it = Interp(analysis, module, {}, world=world)
+
+        def ann(node):
+            if node is None:
+                return SigParam.empty
+            v = it.ev(node)
+            return Ref('builtin:NoneType') if v is None and not (isinstance(node, ast.Constant) and node.value is None) else v
+        items = list(zip(pos, defaults))
+        if skip_first:
+            items = items[1:]
+        for p, d in items:
+            self.parameters[p.arg] = SigParam(p.arg, SigParam.POSITIONAL_OR_KEYWORD, ann(p.annotation), it.ev(d) if d is not None else SigParam.empty)
+        if a.vararg:
+            self.parameters[a.vararg.arg] = SigParam(a.vararg.arg, SigParam.VAR_POSITIONAL, ann(a.vararg.annotation), SigParam.empty)
+        for p, d in zip(a.kwonlyargs, a.kw_defaults):
+            self.parameters[p.arg] = SigParam(p.arg, SigParam.KEYWORD_ONLY, ann(p.annotation), it.ev(d) if d is not None else SigParam.empty)
+        if a.kwarg:
+            self.parameters[a.kwarg.arg] = SigParam(a.kwarg.arg, SigParam.VAR_KEYWORD, ann(a.kwarg.annotation), SigParam.empty)
+        self.return_annotation = ann(fnode.returns) if fnode.returns is not None else Sig.empty
+
+    def bind(self, *args, **kw):
+        arguments = {}
+        args = list(args)
+        for p in self.parameters.values():
+            if p.kind in (SigParam.POSITIONAL_OR_KEYWORD, SigParam.POSITIONAL_ONLY):
+                if args:
+                    arguments[p.name] = args.pop(0)
+                elif p.name in kw:
+                    arguments[p.name] = kw.pop(p.name)
+                elif p.default is SigParam.empty:
+                    raise ExcRaised(Ref('builtin:TypeError'))
+            elif p.kind == SigParam.VAR_POSITIONAL:
+                arguments[p.name] = tuple(args)
+                args = []
+            elif p.kind == SigParam.KEYWORD_ONLY:
+                if p.name in kw:
+                    arguments[p.name] = kw.pop(p.name)
+                elif p.default is SigParam.empty:
+                    raise ExcRaised(Ref('builtin:TypeError'))
+            elif p.kind == SigParam.VAR_KEYWORD:
+                arguments[p.name] = dict(kw)
+                kw = {}
+        if args or kw:
+            raise ExcRaised(Ref('builtin:TypeError'))
+        return SigBound(self, arguments)
+
+
 class World:
     """State that outlives one interpreted call: module-level mutable objects, names rebound through `global`,
     class attributes assigned at run time. Rules that interpret two calls in a row hand the same World to both."""
@@ -126,6 +225,7 @@ class World:
         self.classattrs = {}
         self.steps = 0
         self.initialised = set()
+        self.funcobjs = {}
 
 
 class ExcRaised(Exception):
@@ -406,6 +506,12 @@ class Interp:
             self.env[s.name] = Closure(s, self.env, self.m, list(self.scopes), self.self_class, self.def_class, self.first_param)
         elif isinstance(s, ast.Global):
             self.global_names.update(s.names)
+        elif hasattr(ast, 'Match') and isinstance(s, ast.Match):
+            self._match_stmt(s)
+        elif isinstance(s, ast.Nonlocal):
+            raise Unmodelled('nonlocal rebinding')
+        elif isinstance(s, (ast.Import, ast.ImportFrom)):
+            pass    # local imports: names are resolved through the module's import table
         elif isinstance(s, ast.Delete):
             for t in s.targets:
                 if isinstance(t, ast.Name):
@@ -507,6 +613,8 @@ class Interp:
     def ev(self, n):
         if isinstance(n, ast.Constant):
             return n.value
+        if isinstance(n, ast.Call):
+            return self.call(n)
         if isinstance(n, ast.Name):
             if n.id in self.env and n.id not in self.global_names:
                 return self.env[n.id]
@@ -714,6 +822,10 @@ class Interp:
             outd = {}
             self._comp(n.generators, 0, lambda: outd.__setitem__(self.ev(n.key), self.ev(n.value)))
             return outd
+        if isinstance(n, ast.NamedExpr):
+            val = self.ev(n.value)
+            self.store(n.target, val)
+            return val
         if isinstance(n, ast.Lambda):
             return LambdaVal(n, dict(self.env))
         if isinstance(n, ast.Yield) and self._on_yield is not None:
@@ -778,6 +890,8 @@ class Interp:
                     return self.invoke(recv.f[fn.attr], args, kwargs)
                 key_ = f"{recv.f['cls']}.{fn.attr}"
                 if key_ in self.call_models:
+                    if getattr(self.call_models[key_], 'wants_interp', False):
+                        return self.call_models[key_](self, recv, *args, **kwargs)
                     return self.call_models[key_](recv, *args, **kwargs)
                 cm_, meth_ = self._find_method(recv.f['cls'], fn.attr)
                 if meth_ is not None:
@@ -817,18 +931,35 @@ class Interp:
                 return getattr(recv, fn.attr)(*args)
             if isinstance(recv, (list, tuple)) and fn.attr in ('index', 'count'):
                 return getattr(recv, fn.attr)(*args)
-            if isinstance(recv, list) and fn.attr in ('append', 'pop', 'extend', 'insert'):
+            if isinstance(recv, list) and fn.attr in ('append', 'pop', 'extend', 'insert', 'reverse', 'clear', 'copy'):
                 try:
                     return getattr(recv, fn.attr)(*args)
                 except IndexError:
                     raise ExcRaised(Ref('builtin:IndexError'))
-        text = ast.unparse(fn)
+            if isinstance(recv, list) and fn.attr == 'remove' and len(args) == 1:
+                for i_, e_ in enumerate(recv):
+                    if e_ is args[0] or self._eq(e_, args[0]):
+                        del recv[i_]
+                        return None
+                raise ExcRaised(Ref('builtin:ValueError'))
+            if isinstance(recv, list) and fn.attr == 'sort' and not kwargs and not any(isinstance(x_, Rec) for x_ in recv):
+                try:
+                    recv.sort()
+                    return None
+                except TypeError:
+                    raise ExcRaised(Ref('builtin:TypeError'))
+        if isinstance(fn, ast.Attribute) and isinstance(recv, (list, tuple, dict, set, frozenset, str, int, float, bytes)) \
+                and not hasattr(recv, fn.attr) and fn.attr != 'next':
+            raise ExcRaised(Ref('builtin:AttributeError'))
+        if isinstance(fn, ast.Attribute) and fn.attr == 'next' and isinstance(recv, (list, tuple)):
+            raise ExcRaised(Ref('builtin:AttributeError'))      # iterators have __next__, not .next (a Python 2 idiom)
+        text = ast.unparse(fn) if self.call_models else ''
         ref = None
         if not isinstance(fn, (ast.Name, ast.Attribute)):
             callee = self._safe_ev(fn)
             if isinstance(callee, Ref):
                 ref = callee.ref
-            elif isinstance(callee, (BoundMethod, LambdaVal, Closure)) or (isinstance(callee, PyModel) and callable(callee)):
+            elif isinstance(callee, (BoundMethod, LambdaVal, Closure, RawFunc, Partial)) or (isinstance(callee, PyModel) and callable(callee)):
                 return self.invoke(callee, args, kwargs)
         elif isinstance(fn, ast.Attribute):
             callee = self._safe_ev(fn)
@@ -842,7 +973,7 @@ class Interp:
                 ref = bound.ref
             elif callable(bound) and isinstance(bound, PyModel):
                 return bound(*args, **kwargs)
-            elif isinstance(bound, (BoundMethod, Closure)):
+            elif isinstance(bound, (BoundMethod, Closure, RawFunc, Partial)):
                 return self.invoke(bound, args, kwargs)
             elif callable(bound) and isinstance(getattr(bound, '__self__', None), _PURE_TYPES) \
                     and all(_concrete(a_) for a_ in args) and all(_concrete(v_) for v_ in kwargs.values()):
@@ -858,6 +989,14 @@ class Interp:
                 if getattr(model_, 'wants_interp', False):
                     return model_(self, *args, **kwargs)     # a model expressed in terms of the interpreter's own operations
                 return model_(*args, **kwargs)
+        if ref == 'ext:functools.partial' and ref not in self.call_models and args:
+            return Partial(args[0], args[1:], kwargs)
+        if ref in ('ext:operator.methodcaller', 'ext:operator.itemgetter', 'ext:operator.attrgetter') and ref not in self.call_models and args:
+            return Partial(Ref(ref), args, kwargs)
+        if ref and ref.startswith('ext:itertools.') and ref not in self.call_models:
+            done, res = self._itertools(ref.rpartition('.')[2] if ref.count('.') == 1 else ref[len('ext:itertools.'):], args, kwargs)
+            if done:
+                return res
         if ref and ref.startswith('ext:operator.') and ref not in self.call_models and len(args) == 2 and not kwargs:
             opname = ref.rpartition('.')[2].strip('_')
             cmpmap = {'lt': ast.Lt, 'le': ast.LtE, 'eq': ast.Eq, 'ne': ast.NotEq, 'gt': ast.Gt, 'ge': ast.GtE, 'is_': ast.Is, 'contains': None}
@@ -876,6 +1015,8 @@ class Interp:
         if ref and ref.startswith('builtin:') and ref not in self.call_models and isinstance(getattr(_builtins, ref[8:], None), type) \
                 and issubclass(getattr(_builtins, ref[8:]), BaseException):
             return Ref(ref)         # a new exception object: represented by its class
+        if ref == 'ext:inspect.signature' and ref not in self.call_models and len(args) == 1:
+            return self._signature_of(args[0])
         if ref == 'ext:sys.exc_info' and ref not in self.call_models:
             handling = getattr(self, '_handling', [])
             cur = handling[-1] if handling else None
@@ -911,14 +1052,23 @@ class Interp:
                     if self._is_pkg_class(cref_):
                         return self._call_method(None, cref_, om, onode, args, kwargs)
                     raise Unmodelled(f'call of classmethod {ref} needs a model')
+                if self._effective_decorators(om, onode):
+                    return self.invoke(self._func_object(ref, om, onode), args, kwargs)
                 return self._inline(om, onode, args, kwargs)
         if self.depth < self.max_depth:
             # nested closure of the analysed function / private method of the analysed class
             if isinstance(fn, ast.Name) and self.scopes and fn.id not in self.env:
+                nested_cache = self.a.__dict__.setdefault('_nested_defs', {})
                 for sc_ in self.scopes:
-                    for n_ in ast.walk(sc_):
-                        if isinstance(n_, ast.FunctionDef) and n_ is not sc_ and n_.name == fn.id:
-                            return self._inline(self.m, n_, args, kwargs, closure=True)
+                    table_ = nested_cache.get(id(sc_))
+                    if table_ is None:
+                        table_ = {}
+                        for n_ in ast.walk(sc_):
+                            if isinstance(n_, ast.FunctionDef) and n_ is not sc_:
+                                table_.setdefault(n_.name, n_)
+                        nested_cache[id(sc_)] = table_
+                    if fn.id in table_:
+                        return self._inline(self.m, table_[fn.id], args, kwargs, closure=True)
             if isinstance(fn, ast.Attribute) and isinstance(fn.value, ast.Name) and fn.value.id in ('self', 'cls') \
                     and self.self_class and fn.attr.startswith('_') and not fn.attr.startswith('__'):
                 cm, meth = self.a.res.class_attr(self.self_class, fn.attr)
@@ -1002,7 +1152,7 @@ class Interp:
                 return _PURE[fn.id](*args, **kwargs)
             except Exception as exc:
                 raise ExcRaised(_exc_ref(exc))
-        raise Unmodelled(f'call {text}(...) at line {n.lineno}')
+        raise Unmodelled(f'call {ast.unparse(fn)}(...) at line {n.lineno}')
 
     def _inline(self, om, fnode, args, kwargs, closure=False, skip_first=False, self_class=None):
         if self.depth >= self.max_depth:
@@ -1028,7 +1178,10 @@ class Interp:
                 sub0 = Interp(self.a, om, {}, isinstance_fn=self.isinstance_fn, call_models=self.call_models, world=self.world)
                 env[ko.arg] = sub0.ev(kd)
         env.update(kwargs)
-        is_gen = any(isinstance(y, (ast.Yield, ast.YieldFrom)) for y in _walk_no_defs(fnode))
+        gen_cache = self.a.__dict__.setdefault('_is_gen_cache', {})
+        is_gen = gen_cache.get(id(fnode))
+        if is_gen is None:
+            is_gen = gen_cache[id(fnode)] = any(isinstance(y, (ast.Yield, ast.YieldFrom)) for y in _walk_no_defs(fnode))
         sub = Interp(self.a, om, env, effect_receivers=self.effects if closure else (), isinstance_fn=self.isinstance_fn,
                      call_models=self.call_models, inline_pkg=self.inline_pkg, depth=self.depth + 1,
                      self_class=self_class or self.self_class, record_unknown=self.record_unknown, scope_fn=fnode, world=self.world)
@@ -1075,9 +1228,51 @@ class Interp:
                 return self._inline(callee.module, callee.fnode, list(args), kwargs, closure=True)
             finally:
                 self.env, self.scopes, self.m, self.self_class, self.def_class, self.first_param = saved
+        if isinstance(callee, RawFunc):
+            return self._inline(callee.module, callee.fnode, list(args), kwargs)
+        if isinstance(callee, Partial):
+            if isinstance(callee.func, Ref) and callee.func.ref == 'ext:operator.methodcaller':
+                name_, rest_ = callee.args[0], list(callee.args[1:])
+                node_ = ast.parse(f'__recv.{name_}(*__a, **__k)', mode='eval').body
+                saved_ = dict(self.env)
+                self.env.update({'__recv': args[0], '__a': tuple(rest_), '__k': dict(callee.keywords)})
+                try:
+                    return self.ev(node_)
+                finally:
+                    self.env.clear()
+                    self.env.update(saved_)
+            if isinstance(callee.func, Ref) and callee.func.ref == 'ext:operator.itemgetter':
+                node_ = ast.parse('__recv[__i]', mode='eval').body
+                res_ = []
+                for i_ in callee.args:
+                    saved_ = dict(self.env)
+                    self.env.update({'__recv': args[0], '__i': i_})
+                    try:
+                        res_.append(self.ev(node_))
+                    finally:
+                        self.env.clear()
+                        self.env.update(saved_)
+                return res_[0] if len(res_) == 1 else tuple(res_)
+            if isinstance(callee.func, Ref) and callee.func.ref == 'ext:operator.attrgetter':
+                obj_ = args[0]
+                for part_ in str(callee.args[0]).split('.'):
+                    node_ = ast.parse(f'__recv.{part_}', mode='eval').body
+                    saved_ = dict(self.env)
+                    self.env.update({'__recv': obj_})
+                    try:
+                        obj_ = self.ev(node_)
+                    finally:
+                        self.env.clear()
+                        self.env.update(saved_)
+                return obj_
+            kw_ = dict(callee.keywords)
+            kw_.update(kwargs)
+            return self.invoke(callee.func, list(callee.args) + list(args), kw_)
         if isinstance(callee, BoundMethod):
             key_ = f'{callee.cref}.{callee.fnode.name}'
             if key_ in self.call_models:
+                if getattr(self.call_models[key_], 'wants_interp', False):
+                    return self.call_models[key_](self, callee.recv, *args, **kwargs)
                 return self.call_models[key_](callee.recv, *args, **kwargs)
             return self._call_method(callee.recv if isinstance(callee.recv, Rec) else None, callee.cref, callee.module, callee.fnode,
                                      list(args), kwargs)
@@ -1105,6 +1300,8 @@ class Interp:
                     if self._is_pkg_class(cref_):
                         return self._call_method(None, cref_, om, onode, list(args), kwargs)
                     raise Unmodelled(f'call of classmethod {callee.ref} needs a model')
+                if self._effective_decorators(om, onode):
+                    return self.invoke(self._func_object(callee.ref, om, onode), list(args), kwargs)
                 return self._inline(om, onode, list(args), kwargs)
         if callee is None:
             return self.truth(args[0]) if args else None
@@ -1818,6 +2015,36 @@ def _global(self, gref, n):
     interpreted in its own module), a library constant, or a symbolic reference."""
     if gref in self.world.globals:
         return self.world.globals[gref]
+    gcache = self.a.__dict__.setdefault('_global_cache', {})
+    if gref and (gref, self.m.name) in gcache and gref not in self.call_models:
+        kind_, val_ = gcache[(gref, self.m.name)]
+        if kind_ == 'const':
+            return val_
+        if kind_ == 'template':
+            import copy as _copy
+            val_ = _copy.copy(val_)
+            self.world.globals[gref] = val_
+            return val_
+    val = _global_uncached(self, gref, n)
+    if gref and gref not in self.call_models:
+        if _immutable(val):
+            gcache[(gref, self.m.name)] = ('const', val)
+        elif isinstance(val, dict) and gref in self.world.globals and self.world.globals[gref] is val \
+                and all(_immutable(k_) and _immutable(v_) for k_, v_ in val.items()):
+            import copy as _copy
+            gcache[(gref, self.m.name)] = ('template', _copy.copy(val))
+    return val
+
+
+def _immutable(v, depth=0):
+    if v is None or isinstance(v, (bool, int, float, str, bytes, Ref, TypingAlias, frozenset) + _PURE_TYPES[:6]):
+        return True
+    if isinstance(v, tuple) and depth < 4:
+        return all(_immutable(x, depth + 1) for x in v)
+    return False
+
+
+def _global_uncached(self, gref, n):
     if gref and gref.startswith('ext:') and gref not in self.call_models:
         parts_ = gref[4:].split('.')
         if parts_[0] in _PURE_LIBS and len(parts_) > 1:
@@ -1913,3 +2140,240 @@ def _aggregate(self, name, args, kwargs):
 
 
 Interp._aggregate = _aggregate
+
+
+# ----------------------------------------------------------------------------------------------------------
+# decorated functions, signatures, partial application, match statements
+# ----------------------------------------------------------------------------------------------------------
+_TRANSPARENT_DECORATORS = {'pkg:xlfunctions.xl:register', 'ext:functools.wraps', 'builtin:staticmethod', 'builtin:classmethod',
+                           'builtin:property', 'ext:functools.cached_property', 'ext:functools.lru_cache', 'ext:functools.cache',
+                           'ext:dataclasses.dataclass', 'ext:contextlib.contextmanager'}
+
+
+def _effective_decorators(self, om, fnode):
+    """Decorators of a package function that change what a call of the function does (the registration decorator returns
+    the function unchanged; memoising decorators are judged by the retention rules, not interpreted)."""
+    out = []
+    for d in fnode.decorator_list:
+        t = d.func if isinstance(d, ast.Call) else d
+        r = self.a.res.resolve(t, om) if isinstance(t, (ast.Name, ast.Attribute)) else None
+        if r in _TRANSPARENT_DECORATORS:
+            continue
+        out.append(d)
+    return out
+
+
+def _func_object(self, ref, om, fnode):
+    """The object bound to the function's name after its decorators ran (innermost first), once per world."""
+    if ref in self.world.funcobjs:
+        return self.world.funcobjs[ref]
+    cur = RawFunc(ref, om, fnode)
+    for d in reversed(self._effective_decorators(om, fnode)):
+        sub = Interp(self.a, om, {}, isinstance_fn=self.isinstance_fn, call_models=self.call_models, inline_pkg=True,
+                     depth=self.depth + 1, world=self.world)
+        dec = sub.ev(d)
+        cur = sub.invoke(dec, [cur], {})
+    self.world.funcobjs[ref] = cur
+    return cur
+
+
+def _signature_of(self, func):
+    if isinstance(func, Ref):
+        m, node = self.a.res.lookup(func.ref)
+        if isinstance(node, ast.FunctionDef):
+            return Sig(self.a, m, node, self.world)
+    if isinstance(func, RawFunc):
+        return Sig(self.a, func.module, func.fnode, self.world)
+    if isinstance(func, BoundMethod):
+        return Sig(self.a, func.module, func.fnode, self.world, skip_first=True)
+    if isinstance(func, Closure):
+        # functools.wraps(x): the signature of what is wrapped
+        for d in func.fnode.decorator_list:
+            if isinstance(d, ast.Call) and self.a.res.resolve(d.func, func.module) == 'ext:functools.wraps' and d.args:
+                saved = (self.env, self.scopes, self.m)
+                self.env, self.scopes, self.m = func.env, func.scopes, func.module
+                try:
+                    inner = self.ev(d.args[0])
+                finally:
+                    self.env, self.scopes, self.m = saved
+                return self._signature_of(inner)
+        return Sig(self.a, func.module, func.fnode, self.world)
+    raise Unmodelled(f'inspect.signature of {func!r}')
+
+
+Interp._effective_decorators = _effective_decorators
+Interp._func_object = _func_object
+Interp._signature_of = _signature_of
+
+
+class Partial(PyModel):
+    """functools.partial(f, *args, **kw)"""
+
+    def __init__(self, func, args, kwargs):
+        self.func, self.args, self.keywords = func, tuple(args), dict(kwargs)
+
+
+def _match_pattern(self, pat, subject, binds):
+    """Structural pattern matching of `subject` against the pattern node; binds captured names."""
+    if isinstance(pat, ast.MatchValue):
+        return self.truth(self._compare(ast.Eq(), subject, self.ev(pat.value), None))
+    if isinstance(pat, ast.MatchSingleton):
+        return subject is pat.value
+    if isinstance(pat, ast.MatchAs):
+        if pat.pattern is not None and not self._match_pattern(pat.pattern, subject, binds):
+            return False
+        if pat.name is not None:
+            binds[pat.name] = subject
+        return True
+    if isinstance(pat, ast.MatchOr):
+        for alt in pat.patterns:
+            trial = {}
+            if self._match_pattern(alt, subject, trial):
+                binds.update(trial)
+                return True
+        return False
+    if isinstance(pat, ast.MatchSequence):
+        if isinstance(subject, (str, bytes)) or not isinstance(subject, (list, tuple)):
+            if isinstance(subject, (Opaque, Ref, Rec)):
+                if isinstance(subject, Opaque):
+                    raise Unmodelled('sequence pattern on an opaque value')
+                return False
+            return False
+        star = [i for i, p_ in enumerate(pat.patterns) if isinstance(p_, ast.MatchStar)]
+        if not star:
+            if len(subject) != len(pat.patterns):
+                return False
+            return all(self._match_pattern(p_, v_, binds) for p_, v_ in zip(pat.patterns, subject))
+        i = star[0]
+        before, after = pat.patterns[:i], pat.patterns[i + 1:]
+        if len(subject) < len(before) + len(after):
+            return False
+        for p_, v_ in zip(before, subject[:len(before)]):
+            if not self._match_pattern(p_, v_, binds):
+                return False
+        for p_, v_ in zip(after, subject[len(subject) - len(after):] if after else []):
+            if not self._match_pattern(p_, v_, binds):
+                return False
+        if pat.patterns[i].name:
+            binds[pat.patterns[i].name] = list(subject[len(before):len(subject) - len(after)])
+        return True
+    if isinstance(pat, ast.MatchMapping):
+        if not isinstance(subject, dict):
+            return False
+        for k, p_ in zip(pat.keys, pat.patterns):
+            kv = self.ev(k)
+            if kv not in subject or not self._match_pattern(p_, subject[kv], binds):
+                return False
+        if pat.rest:
+            keys = [self.ev(k) for k in pat.keys]
+            binds[pat.rest] = {k: v for k, v in subject.items() if k not in keys}
+        return True
+    if isinstance(pat, ast.MatchClass):
+        cls = self.ev(pat.cls)
+        refs = self._class_refs(cls)
+        if isinstance(subject, Opaque):
+            raise Unmodelled('class pattern on an opaque value')
+        ok = self.isinstance_fn(subject, refs) if (self.isinstance_fn is not None and isinstance(subject, (Rec, PyModel, Ref))) \
+            else self._isinstance(subject, refs)
+        if not ok:
+            return False
+        if pat.patterns:
+            # positional sub-patterns: __match_args__ of the class; builtin scalars match themselves
+            if len(pat.patterns) == 1 and refs and all(r in ('builtin:str', 'builtin:int', 'builtin:float', 'builtin:bool', 'builtin:bytes',
+                                                           'builtin:list', 'builtin:tuple', 'builtin:dict', 'builtin:set') for r in refs):
+                if not self._match_pattern(pat.patterns[0], subject, binds):
+                    return False
+            else:
+                raise Unmodelled('class pattern with positional sub-patterns')
+        for name, p_ in zip(pat.kwd_attrs, pat.kwd_patterns):
+            if isinstance(subject, Rec):
+                if name in subject.f:
+                    val = subject.f[name]
+                elif isinstance(subject.f.get('cls'), str):
+                    try:
+                        val = self._class_level_attr(subject, subject.f['cls'], name)
+                    except Unmodelled:
+                        return False
+                else:
+                    return False
+            elif isinstance(subject, PyModel) or _concrete(subject):
+                if not hasattr(subject, name):
+                    return False
+                val = getattr(subject, name)
+            else:
+                return False
+            if not self._match_pattern(p_, val, binds):
+                return False
+        return True
+    raise Unmodelled(f'pattern {type(pat).__name__}')
+
+
+def _match_stmt(self, s):
+    subject = self.ev(s.subject)
+    for case in s.cases:
+        binds = {}
+        if self._match_pattern(case.pattern, subject, binds):
+            saved = {k: self.env[k] for k in binds if k in self.env}
+            self.env.update(binds)
+            if case.guard is not None and not self.truth(self.ev(case.guard)):
+                for k in binds:
+                    if k in saved:
+                        self.env[k] = saved[k]
+                    else:
+                        self.env.pop(k, None)
+                continue
+            self.block(case.body)
+            return
+
+
+Interp._match_pattern = _match_pattern
+Interp._match_stmt = _match_stmt
+
+
+def _itertools(self, name, args, kwargs):
+    """itertools on concrete sequences (eager)."""
+    def seq(v):
+        if isinstance(v, Rec) and isinstance(v.f.get('cls'), str):
+            found, res = self._dunder(v, '__iter__')
+            if found:
+                return list(res)
+        if isinstance(v, (Opaque, Ref, Rec)) or not hasattr(v, '__iter__'):
+            raise Unmodelled('itertools over a symbolic iterable')
+        return list(v)
+    import itertools as _it
+    if name == 'chain':
+        return True, [x for a in args for x in seq(a)]
+    if name == 'chain.from_iterable' and len(args) == 1:
+        return True, [x for a in seq(args[0]) for x in seq(a)]
+    if name in ('product', 'combinations', 'permutations', 'zip_longest', 'islice', 'repeat', 'accumulate', 'pairwise', 'count') \
+            and name not in ('count',) and not (name == 'repeat' and len(args) < 2):
+        conv = [seq(a) if hasattr(a, '__iter__') and not isinstance(a, (str, bytes)) else a for a in args]
+        if name == 'accumulate' and (len(conv) > 1 or kwargs):
+            return False, None
+        try:
+            return True, list(getattr(_it, name)(*conv, **kwargs))
+        except Exception as exc:
+            raise ExcRaised(_exc_ref(exc))
+    if name == 'takewhile' or name == 'dropwhile' or name == 'filterfalse' or name == 'starmap':
+        pred, items = args[0], seq(args[1])
+        if name == 'starmap':
+            return True, [self.invoke(pred, list(x)) for x in items]
+        if name == 'filterfalse':
+            return True, [x for x in items if not self.truth(self.invoke(pred, [x]))]
+        out, dropping = [], True
+        for x in items:
+            t = self.truth(self.invoke(pred, [x]))
+            if name == 'takewhile':
+                if not t:
+                    break
+                out.append(x)
+            else:
+                if dropping and t:
+                    continue
+                dropping = False
+                out.append(x)
+        return True, out
+    return False, None
+
+
+Interp._itertools = _itertools
